@@ -245,15 +245,26 @@ Lemma acks_step : forall tr e, Inv_struct (prun tr) -> Inv_trace tr -> chk_all (
 Proof.
   intros tr e IS IT Hchk. rewrite prun_snoc, pstep_call, logged_snoc, acks_snoc, map_app, <- (it_acks _ IT).
   pose proof Hchk as Hc. apply chk_all_iff in Hc. destruct Hc as [_ [_ [_ [_ [_ [_ [_ H7]]]]]]].
-  destruct e as [f|f pl| | |a b|f|id b sy|id ok]; cbn [logged_of_ev ack_of map];
-    rewrite ?app_nil_r; try reflexivity.
-  - destruct f; rewrite ?app_nil_r; try reflexivity. destruct pl; rewrite ?app_nil_r; try reflexivity.
+  assert (Hdef : forall c, ack_of (prun tr) e = [] -> logged_of_ev e = [] -> c = p_call (prun tr) ->
+            (map snd (acks tr) ++ map snd (ack_of (prun tr) e)) ++ pending c =
+            (map snd (acks tr) ++ pending (p_call (prun tr))) ++ logged_of_ev e).
+  { intros c -> -> ->. cbn [map]. rewrite !app_nil_r. reflexivity. }
+  destruct e as [f|f pl| | |a b|f|id b sy|id ok].
+  - apply Hdef; reflexivity.
+  - destruct f as [m| | | |]; try (apply Hdef; reflexivity).
+    destruct pl as [s ops|ed|ents|cm]; try (apply Hdef; reflexivity).
     destruct (append_batch_facts _ _ _ _ IS Hchk) as [_ [_ [id [sy Hcall]]]]. rewrite Hcall.
-    cbn [pending]. rewrite app_nil_r. reflexivity.
-  - cbn [chk_R7] in H7. destruct (p_call (prun tr)); [discriminate|]. cbn [pending]. reflexivity.
-  - cbn [chk_R7] in H7. destruct (p_call (prun tr)) as [[[[id' ops] sy] app]|]; [|discriminate].
+    cbn [pending ack_of logged_of_ev map]. rewrite !app_nil_r. reflexivity.
+  - apply Hdef; reflexivity.
+  - apply Hdef; reflexivity.
+  - apply Hdef; reflexivity.
+  - apply Hdef; reflexivity.
+  - cbn [chk_R7] in H7. destruct (p_call (prun tr)) eqn:Ec; [discriminate|].
+    cbn [pending ack_of logged_of_ev map]. rewrite !app_nil_r. reflexivity.
+  - cbn [chk_R7] in H7. destruct (p_call (prun tr)) as [[[[id' ops] sy] ap]|] eqn:Ec; [|discriminate].
     apply andb_true_iff in H7. destruct H7 as [_ H7].
-    destruct ok, app as [[n s]|]; cbn in H7; try discriminate; cbn [pending map snd app]; rewrite ?app_nil_r; reflexivity.
+    destruct ok, ap as [[n s]|]; cbn in H7; try discriminate;
+      cbn [pending ack_of logged_of_ev map snd app]; rewrite ?Ec; cbn [pending map snd app]; rewrite ?app_nil_r; reflexivity.
 Qed.
 
 Lemma call_step : forall tr e, Inv_struct (prun tr) -> Inv_trace tr -> chk_all (prun tr) e = true ->
@@ -310,4 +321,113 @@ Proof.
     apply andb_true_iff in H0. destruct H0 as [_ H0]. rewrite prun_disk in H0.
     cbn [fs_step]. destruct (ns_lookup (fs_run tr) f); [|discriminate]. cbn [d_ops].
     apply in_or_app; right; left; reflexivity.
+Qed.
+
+Lemma dur_ack_step : forall tr e, Inv_struct (prun tr) -> Inv_trace tr -> chk_all (prun tr) e = true ->
+  forall id n b, In (id, true, n, b) (acks (tr ++ [e])) ->
+    exists i o x j, created_at (fs_run (tr ++ [e])) i (FLog n) o /\
+      nth_error (d_objs (fs_run (tr ++ [e]))) o = Some x /\
+      (j < o_synced x)%nat /\ nth_error (log_batches (tr ++ [e]) n) j = Some b.
+Proof.
+  intros tr e IS IT Hchk id n b H.
+  assert (Hold : In (id, true, n, b) (acks tr) -> exists i o x j, created_at (fs_run (tr ++ [e])) i (FLog n) o /\
+      nth_error (d_objs (fs_run (tr ++ [e]))) o = Some x /\
+      (j < o_synced x)%nat /\ nth_error (log_batches (tr ++ [e]) n) j = Some b).
+  { intro Hin. destruct (it_dur _ IT _ _ _ Hin) as [i [o [x [j [Hc [Hx [Hj Hn]]]]]]].
+    rewrite fs_run_snoc. rewrite <- prun_disk in Hx.
+    destruct (step_obj_mono _ e _ _ IS Hx) as [x' [Hx' [Hs _]]]. rewrite prun_disk in Hx'.
+    exists i, o, x', j. split; [apply step_created_mono; exact Hc|split; [exact Hx'|split; [lia|]]].
+    rewrite log_batches_snoc. rewrite nth_error_app1; [exact Hn|]. apply nth_error_Some; congruence. }
+  assert (Hnew : forall id' ops sy s, e = EAck id true -> p_call (prun tr) = Some (id', ops, sy, Some (n, s)) ->
+            (id, true, n, b) = (id, sy, n, (s, ops)) -> exists i o x j, created_at (fs_run (tr ++ [e])) i (FLog n) o /\
+      nth_error (d_objs (fs_run (tr ++ [e]))) o = Some x /\
+      (j < o_synced x)%nat /\ nth_error (log_batches (tr ++ [e]) n) j = Some b).
+  { intros id' ops sy s -> Hcall E. injection E as <- ->.
+    apply chk_all_iff in Hchk. destruct Hchk as [_ [H1 _]]. cbn [chk_R1] in H1. rewrite Hcall in H1.
+    destruct (obj_at (p_disk (prun tr)) (FLog n)) as [x|] eqn:Ex; [|discriminate].
+    apply Nat.eqb_eq in H1.
+    destruct (obj_at_some _ _ _ Ex) as [o [Hl Hx]].
+    destruct (lookup_created _ _ _ IS Hl) as [i [g [x' [Hc [_ [Hg _]]]]]].
+    rewrite (Hg ltac:(discriminate)) in Hc.
+    destruct (it_call _ IT _ _ _ _ _ Hcall) as [Hkeys [bs0 Hl0]].
+    apply in_map_iff in Hkeys. destruct Hkeys as [[n' bs] [En Hin]]. cbn [fst] in En; subst n'.
+    pose proof (it_logs _ IT _ _ Hin) as Hbs.
+    pose proof (is_logs_recs _ IS _ _ _ _ _ Hin Hc Hx) as Hrecs.
+    pose proof (batches_of_length _ _ Hrecs) as Hlen.
+    rewrite fs_run_snoc. cbn [fs_step]. rewrite <- prun_disk.
+    exists i, o, x, (length bs0). split; [exact Hc|split; [exact Hx|split]].
+    - rewrite H1, <- Hlen, Hbs, Hl0, app_length. cbn [length]. lia.
+    - rewrite log_batches_snoc. cbn [batch_of_ev]. rewrite app_nil_r, Hl0.
+      rewrite nth_error_app2 by lia. rewrite Nat.sub_diag. reflexivity. }
+  destruct (in_acks_snoc _ _ _ H) as [Hin|[[id0 [ops [sy0 [n0 [s [He [Hc E]]]]]]]|[id0 [id' [ops [sy0 [n0 [s [He [Hc E]]]]]]]]]].
+  - apply Hold; exact Hin.
+  - pose proof E as E'. injection E' as -> _ -> _. eapply Hnew; eauto.
+  - pose proof E as E'. injection E' as -> _ -> _. eapply Hnew; eauto.
+Qed.
+
+Lemma cov_newest_step : forall tr e, Inv_trace tr -> chk_all (prun tr) e = true ->
+  p_cov (prun (tr ++ [e])) <= newest_log (p_logs (prun (tr ++ [e]))).
+Proof.
+  intros tr e IT Hchk. rewrite prun_snoc, pstep_cov, pstep_logs. pose proof (it_cov _ IT) as H.
+  destruct e as [f|f pl| | |a b|f|id b sy|id ok]; try exact H.
+  - destruct f; try exact H. rewrite newest_log_snoc. lia.
+  - destruct f; try exact H; destruct pl; try exact H.
+    + rewrite (newest_log_keys _ (p_logs (prun tr))); [exact H|apply add_batch_fst].
+    + destruct (me_log e) as [l|] eqn:El; [|exact H].
+      apply chk_all_iff in Hchk. destruct Hchk as [_ [_ [_ [_ [_ [H5 _]]]]]]. cbn [chk_R5] in H5. rewrite El in H5.
+      apply andb_true_iff in H5. destruct H5 as [H5 _]. apply andb_true_iff in H5. destruct H5 as [_ H5].
+      apply N.leb_le in H5. lia.
+Qed.
+
+Lemma flushed_step : forall tr e, Inv_struct (prun tr) -> Inv_trace tr -> chk_all (prun tr) e = true ->
+  forall n bs b, In (n, bs) (p_logs (prun (tr ++ [e]))) -> n < p_cov (prun (tr ++ [e])) -> In b bs -> flushed (tr ++ [e]) b.
+Proof.
+  intros tr e IS IT Hchk n bs b Hin Hn Hb. rewrite prun_snoc in Hin, Hn. rewrite pstep_logs in Hin. rewrite pstep_cov in Hn.
+  assert (Hold : In (n, bs) (p_logs (prun tr)) -> n < p_cov (prun tr) -> flushed (tr ++ [e]) b).
+  { intros H1 H2. apply flushed_snoc. eapply (it_flushed _ IT); eauto. }
+  destruct e as [f|f pl| | |a b'|f|id b' sy|id ok]; try (apply Hold; assumption).
+  - destruct f as [n'| | | |]; try (apply Hold; assumption).
+    apply in_app_or in Hin. destruct Hin as [Hin|[Hin|[]]]; [apply Hold; assumption|].
+    injection Hin as <- <-. contradiction.
+  - destruct f as [m|m|m| |m]; try (apply Hold; assumption).
+    + destruct pl as [s ops|ed|ents|cm]; try (apply Hold; assumption).
+      destruct (append_batch_facts _ _ _ _ IS Hchk) as [Hm [Hnew _]].
+      assert (ND : NoDup (map fst (p_logs (prun tr)))) by (apply sorted0_nodup; apply (is_logs_sorted _ IS)).
+      apply (in_add_batch m (s, ops) _ n bs ND) in Hin.
+      destruct Hin as [[Hne Hin]|[-> _]]; [apply Hold; assumption|].
+      pose proof (it_cov _ IT). lia.
+    + destruct pl as [s ops|ed|ents|cm]; try (apply Hold; assumption).
+      destruct (me_log ed) as [l|] eqn:El; [|apply Hold; assumption].
+      destruct (N.ltb_spec n (p_cov (prun tr))) as [Hlt|Hge]; [apply Hold; assumption|].
+      pose proof Hchk as Hc. apply chk_all_iff in Hc. destruct Hc as [_ [_ [_ [_ [_ [H5 _]]]]]].
+      cbn [chk_R5] in H5. rewrite El in H5. apply andb_true_iff in H5. destruct H5 as [_ H5].
+      rewrite forallb_forall in H5. specialize (H5 _ Hin). cbn [fst snd] in H5.
+      assert (E1 : (p_cov (prun tr) <=? n) = true) by (apply N.leb_le; exact Hge).
+      assert (E2 : (n <? l) = true) by (apply N.ltb_lt; lia).
+      rewrite E1, E2 in H5. cbn [andb] in H5. rewrite forallb_forall in H5. specialize (H5 _ Hb).
+      exists tr, m, ed, []. split; [reflexivity|]. rewrite <- prun_disk. exact H5.
+Qed.
+
+Lemma Inv_trace_nil : Inv_trace [].
+Proof.
+  constructor; cbn; try (intros; contradiction); try reflexivity; try (intros; discriminate); try lia.
+Qed.
+
+Theorem Inv_trace_run : forall tr, wf_protocol tr = true -> Inv_trace tr.
+Proof.
+  intro tr; induction tr as [|e tr IH] using rev_ind; intro H; [exact Inv_trace_nil|].
+  apply wf_protocol_snoc in H. destruct H as [H1 H2]. specialize (IH H1).
+  pose proof (id_struct _ (Inv_dur_run _ H1)) as IS.
+  destruct (logs_step _ _ IS IH H2) as [L1 L2].
+  constructor.
+  - exact L1.
+  - exact L2.
+  - apply logged_step; assumption.
+  - apply acks_step; assumption.
+  - apply call_step; assumption.
+  - apply dur_ack_step; assumption.
+  - apply ack_log_step; assumption.
+  - apply unl_step; assumption.
+  - apply cov_newest_step; assumption.
+  - apply flushed_step; assumption.
 Qed.
